@@ -1,6 +1,7 @@
 (* GraphIOBipNx.v -- BipartiteGraph.from_networkx on what to_networkx + the gml/dot writers and readers
    deliver (nodes 1..L with bipartite=0, L+1..L+R with bipartite=1, in this order): no label is sorted,
-   so the numbering survives at every size (contrast: dot files of simple/directed graphs, D9). *)
+   so the numbering survives at every size, with string labels (gml, dot as found) and with the integer labels
+   the dot branch of the current code produces (bip_dot_roundtrip). *)
 From Coq Require Import ZArith List Bool Lia ZifyBool Ascii.
 From Cnfgen Require Import GText GraphIO GTextFacts GraphIOFacts GraphIOMatrix GraphIODimacs.
 Import ListNotations.
@@ -20,41 +21,38 @@ Proof.
   - apply not_true_is_false. intros H. apply str_eqb_spec, print_Z_inj in H. lia.
 Qed.
 
-Lemma index_prints d : forall len a u i, a <= u < a + Z.of_nat len ->
-  gio_index gt_str_eqb (gt_print_Z (u + d)) (map (fun j => gt_print_Z (j + d)) (zseq a len)) i = Some (i + (u - a)).
+(* ---------- generic in the label type: lab is injective and eqb decides equality of labels ---------- *)
+Lemma index_labs {A} (eqb : A -> A -> bool) (lab : Z -> A) (Heq : forall x y, eqb (lab x) (lab y) = (x =? y)) d :
+  forall len a u i, a <= u < a + Z.of_nat len ->
+  gio_index eqb (lab (u + d)) (map (fun j => lab (j + d)) (zseq a len)) i = Some (i + (u - a)).
 Proof.
   induction len as [|len IH]; intros a u i H; [lia|]. rewrite zseq_S. cbn [map gio_index].
-  rewrite str_eqb_print. destruct (u + d =? a + d) eqn:E; [f_equal; lia|].
+  rewrite Heq. destruct (u + d =? a + d) eqn:E; [f_equal; lia|].
   rewrite IH by lia. f_equal. lia.
 Qed.
-Lemma index_prints_none d : forall len a x i, (x < a + d \/ a + Z.of_nat len + d <= x) ->
-  gio_index gt_str_eqb (gt_print_Z x) (map (fun j => gt_print_Z (j + d)) (zseq a len)) i = None.
-Proof.
-  induction len as [|len IH]; intros a x i H; [reflexivity|]. rewrite zseq_S. cbn [map gio_index].
-  rewrite str_eqb_print. replace (x =? a + d) with false by lia. apply IH. lia.
-Qed.
 
-Definition bip_nodes (L R : Z) : list (gt_str * Z) :=
-  map (fun i => (gt_print_Z (i + 0), 0)) (gt_range1 L) ++ map (fun j => (gt_print_Z (j + L), 1)) (gt_range1 R).
-Definition bip_edges (L : Z) (es : list (Z * Z)) : list (gt_str * gt_str) :=
-  map (fun e => (gt_print_Z (fst e + 0), gt_print_Z (snd e + L))) es.
+Definition bip_nodes_lab {A} (lab : Z -> A) (L R : Z) : list (A * Z) :=
+  map (fun i => (lab (i + 0), 0)) (gt_range1 L) ++ map (fun j => (lab (j + L), 1)) (gt_range1 R).
+Definition bip_edges_lab {A} (lab : Z -> A) (L : Z) (es : list (Z * Z)) : list (A * A) :=
+  map (fun e => (lab (fst e + 0), lab (snd e + L))) es.
 
 Lemma filter_map_const {A B} (p : B -> bool) (f : A -> B) b l : (forall x, p (f x) = b) ->
   filter p (map f l) = if b then map f l else [].
 Proof. intros H. induction l as [|x t IH]; cbn [map filter]; [now destruct b|]. rewrite H, IH. now destruct b. Qed.
 
-Theorem bip_nx_identity G : gio_wf G -> io_kind G = GioBipartite ->
-  gio_bip_from_nx gt_str_eqb (io_name G) (bip_nodes (io_n G) (io_r G)) (bip_edges (io_n G) (io_edges G)) = GOk G.
+Theorem bip_nx_identity_lab {A} (eqb : A -> A -> bool) (lab : Z -> A) (Heq : forall x y, eqb (lab x) (lab y) = (x =? y)) G :
+  gio_wf G -> io_kind G = GioBipartite ->
+  gio_bip_from_nx eqb (io_name G) (bip_nodes_lab lab (io_n G) (io_r G)) (bip_edges_lab lab (io_n G) (io_edges G)) = GOk G.
 Proof.
   intros (Hn & Hr & _ & Hs & Hf) HK. unfold gio_bip_from_nx.
   set (L := io_n G) in *. set (R := io_r G) in *.
-  assert (Hcol : forallb (fun nc : gt_str * Z => (snd nc =? 0) || (snd nc =? 1)) (bip_nodes L R) = true).
-  { unfold bip_nodes. rewrite forallb_app. apply andb_true_iff. split; apply forallb_forall; intros x Hx; apply in_map_iff in Hx as [i [<- _]]; reflexivity. }
-  assert (H0 : map fst (filter (fun nc : gt_str * Z => snd nc =? 0) (bip_nodes L R)) = map (fun j => gt_print_Z (j + 0)) (zseq 1 (Z.to_nat L))).
-  { unfold bip_nodes. rewrite filter_app, (filter_map_const _ _ true), (filter_map_const _ _ false) by reflexivity.
+  assert (Hcol : forallb (fun nc : A * Z => (snd nc =? 0) || (snd nc =? 1)) (bip_nodes_lab lab L R) = true).
+  { unfold bip_nodes_lab. rewrite forallb_app. apply andb_true_iff. split; apply forallb_forall; intros x Hx; apply in_map_iff in Hx as [i [<- _]]; reflexivity. }
+  assert (H0 : map fst (filter (fun nc : A * Z => snd nc =? 0) (bip_nodes_lab lab L R)) = map (fun j => lab (j + 0)) (zseq 1 (Z.to_nat L))).
+  { unfold bip_nodes_lab. rewrite filter_app, (filter_map_const _ _ true), (filter_map_const _ _ false) by reflexivity.
     rewrite app_nil_r, map_map, range1_zseq. reflexivity. }
-  assert (H1 : map fst (filter (fun nc : gt_str * Z => snd nc =? 1) (bip_nodes L R)) = map (fun j => gt_print_Z (j + L)) (zseq 1 (Z.to_nat R))).
-  { unfold bip_nodes. rewrite filter_app, (filter_map_const _ _ false), (filter_map_const _ _ true) by reflexivity.
+  assert (H1 : map fst (filter (fun nc : A * Z => snd nc =? 1) (bip_nodes_lab lab L R)) = map (fun j => lab (j + L)) (zseq 1 (Z.to_nat R))).
+  { unfold bip_nodes_lab. rewrite filter_app, (filter_map_const _ _ false), (filter_map_const _ _ true) by reflexivity.
     cbn [app]. rewrite map_map, range1_zseq. reflexivity. }
   rewrite Hcol, H0, H1. cbn [negb]. rewrite !map_length. unfold zseq at 1 2. rewrite !map_length, !seq_length, !Z2Nat.id by lia.
   rewrite new_ok by lia. cbn [gio_bind].
@@ -64,14 +62,14 @@ Proof.
   match goal with |- ?F _ _ = _ => set (go := F) end.
   assert (Hgo : forall es B, io_kind B = GioBipartite -> io_n B = L -> io_r B = R ->
                  (forall u v, In (u, v) es -> 1 <= u <= L /\ 1 <= v <= R) ->
-                 go B (bip_edges L es) = GOk (gio_with_edges B (insert_all es (io_edges B)))).
+                 go B (bip_edges_lab lab L es) = GOk (gio_with_edges B (insert_all es (io_edges B)))).
   { induction es as [|[u v] t IH]; intros B HB HBn HBr Hes.
     - cbn. now rewrite with_edges_self.
-    - destruct (Hes u v (or_introl eq_refl)) as [Hu Hv]. cbn [bip_edges map fst snd]. unfold go at 1. cbn fix beta iota. fold go.
-      rewrite (index_prints 0) by lia. rewrite (index_prints L) by lia. cbn [Z.eqb].
-      rewrite (index_prints 0) by lia. rewrite (index_prints L) by lia.
+    - destruct (Hes u v (or_introl eq_refl)) as [Hu Hv]. cbn [bip_edges_lab map fst snd]. unfold go at 1. cbn fix beta iota. fold go.
+      rewrite (index_labs eqb lab Heq 0) by lia. rewrite (index_labs eqb lab Heq L) by lia. cbn [Z.eqb].
+      rewrite (index_labs eqb lab Heq 0) by lia. rewrite (index_labs eqb lab Heq L) by lia.
       rewrite add_edge_ok by (unfold edge_ok; rewrite HB, HBn, HBr; cbn [fst snd]; lia).
-      cbn [gio_bind]. fold (bip_edges L t). rewrite IH; auto.
+      cbn [gio_bind]. fold (bip_edges_lab lab L t). rewrite IH; auto.
       + rewrite with_edges_twice, with_edges_edges, HB. cbn [edge_norm]. rewrite insert_all_cons.
         replace (1 + (u - 1), 1 + (v - 1)) with (u, v) by (f_equal; lia). reflexivity.
       + intros a b Hab. apply Hes. now right. }
@@ -90,8 +88,58 @@ Theorem bip_nx_roundtrip G : gio_wf G -> io_kind G = GioBipartite ->
   gio_bip_from_nx gt_str_eqb (io_name G) (nx_bip_nodes (io_n G) (io_r G)) (nx_bip_edges (io_n G) (io_edges G)) = GOk G.
 Proof.
   intros Hwf HK.
-  replace (nx_bip_nodes (io_n G) (io_r G)) with (bip_nodes (io_n G) (io_r G)).
-  - replace (nx_bip_edges (io_n G) (io_edges G)) with (bip_edges (io_n G) (io_edges G)); [now apply bip_nx_identity|].
-    unfold bip_edges, nx_bip_edges. apply map_ext. intros e. now rewrite Z.add_0_r, Z.add_comm.
-  - unfold bip_nodes, nx_bip_nodes. f_equal; apply map_ext; intros i; [now rewrite Z.add_0_r|now rewrite Z.add_comm].
+  replace (nx_bip_nodes (io_n G) (io_r G)) with (bip_nodes_lab gt_print_Z (io_n G) (io_r G)).
+  - replace (nx_bip_edges (io_n G) (io_edges G)) with (bip_edges_lab gt_print_Z (io_n G) (io_edges G));
+      [now apply (bip_nx_identity_lab gt_str_eqb gt_print_Z str_eqb_print)|].
+    unfold bip_edges_lab, nx_bip_edges. apply map_ext. intros e. now rewrite Z.add_0_r, Z.add_comm.
+  - unfold bip_nodes_lab, nx_bip_nodes. f_equal; apply map_ext; intros i; [now rewrite Z.add_0_r|now rewrite Z.add_comm].
+Qed.
+
+(* ---------- dot, current code: the labels of a dot file are turned into integers first ---------- *)
+Lemma ints_map_print {A} (f : A -> Z) l : gt_ints (map (fun x => gt_print_Z (f x)) l) = Some (map f l).
+Proof. rewrite <- (map_map f gt_print_Z). apply ints_print. Qed.
+
+Lemma combine_map_map {A B C} (f : A -> B) (g : A -> C) l : combine (map f l) (map g l) = map (fun x => (f x, g x)) l.
+Proof. induction l as [|x t IH]; [reflexivity|]. cbn [map combine]. now rewrite IH. Qed.
+Lemma combine_app {A B} : forall (l1 l2 : list A) (m1 m2 : list B), length l1 = length m1 ->
+  combine (l1 ++ l2) (m1 ++ m2) = combine l1 m1 ++ combine l2 m2.
+Proof.
+  induction l1 as [|x t IH]; intros l2 [|y m1] m2 H; try discriminate; [reflexivity|]. cbn [app combine]. f_equal. apply IH.
+  now inversion H.
+Qed.
+
+Lemma zseq_NoDup : forall len a, NoDup (zseq a len).
+Proof.
+  induction len as [|len IH]; intros a; [constructor|]. rewrite zseq_S. constructor; [|apply IH].
+  intros H. apply zseq_In in H. lia.
+Qed.
+
+Lemma nodupb_true : forall l, NoDup l -> gio_nodupb_Z l = true.
+Proof.
+  induction l as [|x t IH]; intros H; [reflexivity|]. inversion H as [|y l Hx Ht]; subst. cbn [gio_nodupb_Z].
+  rewrite (IH Ht), andb_true_r. apply negb_true_iff, not_true_is_false. intros E.
+  apply existsb_exists in E as [y [Hy Ey]]. assert (y = x) by lia. now subst.
+Qed.
+
+Theorem bip_dot_roundtrip G : gio_wf G -> io_kind G = GioBipartite ->
+  gio_dot_bip_normalize (io_name G) (nx_bip_nodes (io_n G) (io_r G)) (nx_bip_edges (io_n G) (io_edges G)) = Some (GOk G).
+Proof.
+  intros Hwf HK. pose proof Hwf as (Hn & Hr & _). unfold gio_dot_bip_normalize, nx_bip_nodes, nx_bip_edges.
+  rewrite map_app, !map_map. cbn [fst snd].
+  assert (E1 : gt_ints (map (fun x => gt_print_Z x) (gt_range1 (io_n G)) ++ map (fun x => gt_print_Z (io_n G + x)) (gt_range1 (io_r G)))
+               = Some (gt_range1 (io_n G) ++ map (fun x => io_n G + x) (gt_range1 (io_r G)))).
+  { rewrite <- (map_map (fun x => io_n G + x) gt_print_Z), <- map_app. apply ints_print. }
+  rewrite E1. clear E1.
+  rewrite (ints_map_print fst), (ints_map_print (fun e => io_n G + snd e)).
+  assert (Hnd : gio_nodupb_Z (gt_range1 (io_n G) ++ map (fun x => io_n G + x) (gt_range1 (io_r G))) = true).
+  { apply nodupb_true. rewrite !range1_zseq.
+    replace (map (fun x => io_n G + x) (zseq 1 (Z.to_nat (io_r G)))) with (zseq (1 + io_n G) (Z.to_nat (io_r G)))
+      by (rewrite zseq_shift; apply map_ext; intros; lia).
+    replace (1 + io_n G) with (1 + Z.of_nat (Z.to_nat (io_n G))) by lia. rewrite <- zseq_app. apply zseq_NoDup. }
+  rewrite Hnd. f_equal.
+  rewrite <- (bip_nx_identity_lab Z.eqb (fun z => z) (fun x y => eq_refl) G Hwf HK). f_equal.
+  - unfold bip_nodes_lab. rewrite map_app, !map_map. cbn [snd].
+    rewrite combine_app by now rewrite map_length.
+    rewrite <- (map_id (gt_range1 (io_n G))) at 1. rewrite !combine_map_map. f_equal; apply map_ext; intros i; f_equal; lia.
+  - unfold bip_edges_lab. rewrite combine_map_map. apply map_ext. intros e. f_equal; lia.
 Qed.
